@@ -1,0 +1,66 @@
+// Copyright 2025 The frp Authors
+//
+// Licensed under the Apache License, Version 2.0 (the "License");
+// you may not use this file except in compliance with the License.
+// You may obtain a copy of the License at
+//
+//     http://www.apache.org/licenses/LICENSE-2.0
+//
+// Unless required by applicable law or agreed to in writing, software
+// distributed under the License is distributed on an "AS IS" BASIS,
+// WITHOUT WARRANTIES OR CONDITIONS OF ANY KIND, either express or implied.
+// See the License for the specific language governing permissions and
+// limitations under the License.
+
+//go:build !frps
+
+package client
+
+import (
+	"io"
+	"sync"
+)
+
+// connTracker remembers the connections a plugin instance is still handling itself, so that Close
+// can end them: a plugin that was closed (proxy stopped or replaced by a reload) must not go on
+// serving connections with the options (e.g. credentials) it was created with.
+type connTracker struct {
+	mu     sync.Mutex
+	conns  map[io.Closer]struct{}
+	closed bool
+}
+
+func newConnTracker() *connTracker {
+	return &connTracker{conns: make(map[io.Closer]struct{})}
+}
+
+// Add registers c. It returns false, and closes c, if the tracker is already closed.
+func (t *connTracker) Add(c io.Closer) bool {
+	t.mu.Lock()
+	if t.closed {
+		t.mu.Unlock()
+		_ = c.Close()
+		return false
+	}
+	t.conns[c] = struct{}{}
+	t.mu.Unlock()
+	return true
+}
+
+func (t *connTracker) Remove(c io.Closer) {
+	t.mu.Lock()
+	delete(t.conns, c)
+	t.mu.Unlock()
+}
+
+// CloseAll closes every registered connection and all that are added later.
+func (t *connTracker) CloseAll() {
+	t.mu.Lock()
+	t.closed = true
+	conns := t.conns
+	t.conns = make(map[io.Closer]struct{})
+	t.mu.Unlock()
+	for c := range conns {
+		_ = c.Close()
+	}
+}
